@@ -9,6 +9,9 @@ import (
 	"strings"
 	"time"
 
+	"github.com/aukilabs/hagall-common/messages/hagallpb"
+	"github.com/aukilabs/hagall-common/messages/odalpb"
+	"github.com/aukilabs/hagall-common/messages/vikjapb"
 	"github.com/aukilabs/hagall-common/ncsclient"
 	hwebsocket "github.com/aukilabs/hagall-common/websocket"
 	"github.com/aukilabs/hagall/featureflag"
@@ -61,6 +64,7 @@ type World struct {
 	byNanos   map[int]*wire.Req
 	nanos     int
 	out       *bufio.Writer
+	noGhost   bool
 	gaugeBase float64
 	// events as executed (for replay files); RLog is the replayable form (clock-derived ping ids as @k references)
 	Log  []string
@@ -171,6 +175,68 @@ func (w *World) state() {
 		strs[i] = fmt.Sprint(n)
 	}
 	w.emit("S [%d %s g=%d", len(nums), strings.Join(strs, " "), int(sessionGauge()-w.gaugeBase))
+	w.ghost(ids)
+}
+
+// ghost prints, for every registered session, the state the server holds: what a newcomer would be handed at this very
+// moment (built the way HandleParticipantJoin and the modules build it) and what no message shows - id counters,
+// component types, subscriptions.  `G <sid> <message tokens>` / `G <sid> reg pc ec tc ac subs types`
+func (w *World) ghost(gids []string) {
+	if w.noGhost {
+		return
+	}
+	sorted := append([]string(nil), gids...)
+	sort.Strings(sorted)
+	for _, g := range sorted {
+		sess, ok := w.store.GetByGlobalID(g)
+		n, known := w.canon.SidOf(g)
+		if !ok || !known {
+			continue
+		}
+		put := func(pm hwebsocket.ProtoMsg) {
+			if m, err := hwebsocket.MsgFromProto(pm); err == nil {
+				w.emit("G %d %s", n, w.canon.OutTokens(m))
+			}
+		}
+		put(&hagallpb.SessionState{Type: hagallpb.MsgType_MSG_TYPE_SESSION_STATE, Timestamp: timestamppb.Now(),
+			Participants: models.ParticipantsToProtobuf(sess.GetParticipants()), Entities: models.EntitiesToProtobuf(sess.Entities()),
+			EntityComponents: sess.GetEntityComponents().ListAll()})
+		ac := uint32(0)
+		if strings.Contains(w.cfg.Mods, "v") {
+			var acts []*vikjapb.EntityAction
+			if st, ok := sess.ModuleState("vikja"); ok {
+				acts = st.(*vikja.State).EntityActions()
+			}
+			put(&vikjapb.State{Type: vikjapb.MsgType_MSG_TYPE_VIKJA_STATE, Timestamp: timestamppb.Now(), EntityActions: acts})
+		}
+		if strings.Contains(w.cfg.Mods, "o") {
+			var as []*odalpb.AssetInstance
+			if st, ok := sess.ModuleState("odal"); ok {
+				as = st.(*odal.State).AssetInstances()
+				ac = st.(*odal.State).VerifAssetCounter()
+			}
+			put(&odalpb.State{Type: odalpb.MsgType_MSG_TYPE_ODAL_STATE, Timestamp: timestamppb.Now(), AssetInstances: as})
+		}
+		pc, ec, tc := sess.VerifCounters()
+		var subs, types []string
+		for t, ps := range sess.GetEntityComponents().VerifSubscriptions() {
+			for _, p := range ps {
+				subs = append(subs, fmt.Sprintf("%d:%d", t, p))
+			}
+		}
+		for t, name := range sess.GetEntityComponents().VerifTypes() {
+			types = append(types, fmt.Sprintf("%d:x%x", t, name))
+		}
+		sort.Strings(subs)
+		sort.Strings(types)
+		join := func(l []string) string {
+			if len(l) == 0 {
+				return "-"
+			}
+			return strings.Join(l, ",")
+		}
+		w.emit("G %d reg %d %d %d %d %s %s", n, pc, ec, tc, ac, join(subs), join(types))
+	}
 }
 
 func (w *World) finishEvent(outcome string) {
